@@ -1,10 +1,315 @@
 package main
 
 import (
-	_ "golang.org/x/tools/go/callgraph/cha"
-	_ "golang.org/x/tools/go/packages"
-	_ "golang.org/x/tools/go/ssa"
-	_ "golang.org/x/tools/go/ssa/ssautil"
+	"encoding/json"
+	"flag"
+	"fmt"
+	"os"
+	"path/filepath"
+	"sort"
+	"strings"
+	"time"
+
+	"golang.org/x/tools/go/ssa"
 )
 
-func main() {}
+func env(k, d string) string {
+	if v := os.Getenv(k); v != "" {
+		return v
+	}
+	return d
+}
+
+func main() {
+	if len(os.Args) < 2 {
+		fmt.Fprintln(os.Stderr, "usage: gvc check <property> [--tier quick|thorough] | verify <func>... | list | replay <file> | selftest")
+		os.Exit(3)
+	}
+	repo := env("GVC_REPO", "/repo")
+	verif := env("GVC_VERIF", "/verif")
+	switch os.Args[1] {
+	case "check":
+		fs := flag.NewFlagSet("check", flag.ExitOnError)
+		tier := fs.String("tier", env("VERIF_TIER", "quick"), "quick|thorough")
+		verbose := fs.Bool("v", false, "verbose")
+		if len(os.Args) < 3 {
+			os.Exit(3)
+		}
+		fs.Parse(os.Args[3:])
+		os.Exit(runCheck(repo, verif, os.Args[2], *tier, *verbose))
+	case "verify":
+		os.Exit(runVerify(repo, verif, os.Args[2:]))
+	case "list":
+		os.Exit(runList(repo, verif))
+	case "replay":
+		os.Exit(runReplay(repo, verif, os.Args[2]))
+	case "selftest":
+		os.Exit(runSelftest(repo, verif, os.Args[2:]))
+	default:
+		fmt.Fprintln(os.Stderr, "unknown command", os.Args[1])
+		os.Exit(3)
+	}
+}
+
+func hasTag(tags []string, t string) bool {
+	for _, x := range tags {
+		if x == t {
+			return true
+		}
+	}
+	return false
+}
+
+func contractHasTag(fc *FuncContract, t string) bool {
+	if hasTag(fc.Tags, t) {
+		return true
+	}
+	for _, cl := range [][]*Clause{fc.Requires, fc.Ensures, fc.EnsPanic, fc.Modifies} {
+		for _, c := range cl {
+			if hasTag(c.Tags, t) {
+				return true
+			}
+		}
+	}
+	for _, l := range fc.Loops {
+		for _, c := range l.Invariants {
+			if hasTag(c.Tags, t) {
+				return true
+			}
+		}
+	}
+	return false
+}
+
+type rootJob struct {
+	fn     *ssa.Function
+	fc     *FuncContract
+	names  []string
+	reason string
+}
+
+// rootsFor collects the functions whose VCs carry obligations of the property.
+func (e *Engine) rootsFor(prop string) (jobs []rootJob, problems []string) {
+	seen := map[string]bool{}
+	addJob := func(j rootJob) {
+		k := e.shortName(j.fn) + "|"
+		if j.fc != nil {
+			k += j.fc.Kind + j.fc.Key
+		}
+		if seen[k] {
+			return
+		}
+		seen[k] = true
+		jobs = append(jobs, j)
+	}
+	var keys []string
+	for k := range e.contracts.Funcs {
+		keys = append(keys, k)
+	}
+	sort.Strings(keys)
+	for _, k := range keys {
+		fc := e.contracts.Funcs[k]
+		if prop != "" && !contractHasTag(fc, prop) {
+			continue
+		}
+		if fc.Trusted != "" {
+			continue
+		}
+		fn := e.funcByShort[shortPkg(fc.PkgPath)+"."+fc.Key]
+		if fn == nil {
+			problems = append(problems, fmt.Sprintf("anchor-missing: contract %s:%d names function %s which does not exist", shortFile(fc.File), fc.Line, fc.Key))
+			continue
+		}
+		addJob(rootJob{fn: fn, fc: fc, reason: "contract"})
+	}
+	keys = keys[:0]
+	for k := range e.contracts.Ifaces {
+		keys = append(keys, k)
+	}
+	sort.Strings(keys)
+	for _, k := range keys {
+		fc := e.contracts.Ifaces[k]
+		if prop != "" && !contractHasTag(fc, prop) {
+			continue
+		}
+		parts := strings.SplitN(fc.Key, ".", 2)
+		impls := e.implementations(fc.PkgPath, parts[0], parts[1])
+		if len(impls) == 0 {
+			problems = append(problems, fmt.Sprintf("anchor-missing: interface contract %s has no implementation", fc.Key))
+		}
+		for _, fn := range impls {
+			addJob(rootJob{fn: fn, fc: fc, names: fc.ParamNames, reason: "implements " + fc.Key})
+		}
+	}
+	for _, s := range e.contracts.Sites {
+		tagged := prop == "" || hasTag(s.Tags, prop)
+		for _, a := range s.Asserts {
+			if hasTag(a.Tags, prop) {
+				tagged = true
+			}
+		}
+		if !tagged {
+			continue
+		}
+		fns := e.functionsWithSites(s)
+		if len(fns) < s.MinSites || len(fns) == 0 {
+			problems = append(problems, fmt.Sprintf("anchor-missing: site %s matched %d functions (minimum %d)", s.Name, len(fns), s.MinSites))
+		}
+		for _, fn := range fns {
+			// closures are reached through their parent when it inlines them; verify them as roots too
+			fc := e.contractFor(fn)
+			if fc != nil && fc.Trusted != "" {
+				fc = nil
+			}
+			addJob(rootJob{fn: fn, fc: fc, reason: "site " + s.Name})
+		}
+	}
+	return
+}
+
+func shortPkg(path string) string {
+	if path == "gorm.io/gorm" {
+		return "gorm"
+	}
+	return strings.TrimPrefix(path, "gorm.io/gorm/")
+}
+
+type runResult struct {
+	obs      []*Obligation
+	reports  []*FuncReport
+	problems []string
+	vcs      []*VC
+}
+
+func (e *Engine) generate(prop string, only func(*ssa.Function) bool) *runResult {
+	res := &runResult{}
+	jobs, problems := e.rootsFor(prop)
+	res.problems = problems
+	for _, j := range jobs {
+		if only != nil && !only(j.fn) {
+			continue
+		}
+		vc, rep := e.verifyFunction(j.fn, j.fc, j.names)
+		if j.fc != nil && j.fc.Kind == "iface" {
+			rep.Contract += " (" + j.reason + ")"
+			for _, o := range vc.obs {
+				o.Name = strings.Replace(o.Name, e.shortName(j.fn), e.shortName(j.fn)+"@"+j.fc.Key, 1)
+			}
+		}
+		res.reports = append(res.reports, rep)
+		res.vcs = append(res.vcs, vc)
+		if rep.Error != "" {
+			res.problems = append(res.problems, fmt.Sprintf("%s: %s", rep.Func, rep.Error))
+		}
+		if rep.Unsupported != "" {
+			res.problems = append(res.problems, fmt.Sprintf("%s: outside the verified subset: %s", rep.Func, rep.Unsupported))
+		}
+		for _, o := range vc.obs {
+			if prop == "" || hasTag(o.Tags, prop) {
+				res.obs = append(res.obs, o)
+			}
+		}
+	}
+	// unused / dangling contract parts
+	for _, ev := range e.contracts.Events {
+		_ = ev
+	}
+	return res
+}
+
+func runVerify(repo, verif string, args []string) int {
+	e, err := newEngine(repo, verif, nil)
+	if err != nil {
+		fmt.Fprintln(os.Stderr, err)
+		return 3
+	}
+	dump := false
+	all := false
+	var pats []string
+	for _, a := range args {
+		switch a {
+		case "-dump":
+			dump = true
+		case "-all":
+			all = true
+		default:
+			pats = append(pats, a)
+		}
+	}
+	res := e.generate("", func(fn *ssa.Function) bool {
+		if len(pats) == 0 {
+			return true
+		}
+		for _, p := range pats {
+			if strings.Contains(e.shortName(fn), p) {
+				return true
+			}
+		}
+		return false
+	})
+	tmp, _ := os.MkdirTemp("", "gvc")
+	defer os.RemoveAll(tmp)
+	discharge(res.obs, solveOpts{timeoutS: 20, dir: tmp, jobs: 16})
+	for _, r := range res.reports {
+		fmt.Printf("== %s: %d obligations, %d exits (+%d panic), %d assertions %s %s\n", r.Func, r.Obligations, r.Exits, r.PanicExits, r.Asserts, r.Error, r.Unsupported)
+	}
+	fails := 0
+	for _, o := range res.obs {
+		ok := o.Result == "unsat" || (o.Cover && strings.HasPrefix(o.Result, "reachable"))
+		if !ok {
+			fails++
+		}
+		if !ok || all {
+			fmt.Printf("  %-7s %-8s %s [%s %dms] %s | %s\n", map[bool]string{true: "ok", false: "FAIL"}[ok], o.Result, o.Name, o.Backend, o.Ms, o.Src, o.Clause)
+		}
+		if !ok && dump {
+			f := filepath.Join("/tmp", "gvc_"+sanitize(o.Name)+".smt2")
+			os.WriteFile(f, []byte(o.query(true)), 0o644)
+			fmt.Println("      query:", f)
+		}
+	}
+	for _, p := range res.problems {
+		fmt.Println("  PROBLEM:", p)
+	}
+	fmt.Printf("%d obligations, %d not discharged\n", len(res.obs), fails)
+	if fails > 0 {
+		return 1
+	}
+	return 0
+}
+
+func runList(repo, verif string) int {
+	e, err := newEngine(repo, verif, nil)
+	if err != nil {
+		fmt.Fprintln(os.Stderr, err)
+		return 3
+	}
+	for _, fn := range e.allFuncs {
+		c := ""
+		if fc := e.contractFor(fn); fc != nil {
+			c = "contract " + strings.Join(fc.Tags, ",")
+		}
+		fmt.Printf("%-70s blocks=%d %s\n", e.shortName(fn), len(fn.Blocks), c)
+	}
+	return 0
+}
+
+// ---------- evidence ----------
+type Evidence struct {
+	PropertyID  string                 `json:"property_id"`
+	Tier        string                 `json:"tier"`
+	Seed        int                    `json:"seed"`
+	Level       string                 `json:"level"`
+	Coverage    map[string]interface{} `json:"coverage"`
+	Assumptions []string               `json:"assumptions"`
+	WallS       float64                `json:"wall_s"`
+	Violations  int                    `json:"violations"`
+}
+
+func writeJSON(path string, v interface{}) {
+	os.MkdirAll(filepath.Dir(path), 0o755)
+	data, _ := json.MarshalIndent(v, "", " ")
+	os.WriteFile(path, append(data, '\n'), 0o644)
+}
+
+var _ = time.Now
